@@ -1,0 +1,423 @@
+//! Instrumentation used by an external verification harness. Compiled only with
+//! `--cfg indicatif_verif`; without that flag this module does not exist and the crate uses the
+//! `std` primitives directly.
+//!
+//! The types below wrap `std::sync::{Mutex, RwLock, Condvar}`, `std::thread::{spawn, JoinHandle}`
+//! and `portable_atomic::AtomicU64` and report every step to an [`Observer`] installed by the
+//! harness. The observer may just record, or block the calling thread until a scheduler lets it
+//! continue (controlled scheduling); in the latter case condition-variable waits are decided by
+//! the observer instead of the operating system.
+#![allow(missing_docs, clippy::all)]
+
+use std::ops::{Deref, DerefMut};
+use std::sync::atomic::{AtomicUsize, Ordering as StdOrdering};
+use std::sync::{self as ss, Arc, LockResult, PoisonError};
+use std::time::Duration;
+
+#[derive(Clone, Copy, Debug, PartialEq, Eq)]
+pub enum Op {
+    Lock,
+    Unlock,
+    Read,
+    Write,
+    RwUnlock,
+    CvWait,
+    CvNotify,
+    Spawn,
+    Start,
+    Exit,
+    Join,
+    AtomicLoad,
+    AtomicStore,
+    AtomicRmw,
+    Mark,
+}
+
+#[derive(Clone, Debug)]
+pub struct Event {
+    pub op: Op,
+    /// type name of the protected value (locks), or a static label (marks)
+    pub label: &'static str,
+    /// identity of the object (unique per wrapper instance / spawned thread)
+    pub obj: usize,
+    /// true: the step is about to happen (the observer may delay it); false: it has happened
+    pub before: bool,
+    pub arg: usize,
+}
+
+pub trait Observer: Send + Sync {
+    fn event(&self, ev: &Event);
+    /// `Some(timed_out)` if the observer decides condition-variable waits itself (it blocks the
+    /// caller until the wait is over), `None` to use the real condition variable.
+    fn cv_wait(&self, _cv: usize) -> Option<bool> {
+        None
+    }
+}
+
+static OBSERVER: ss::RwLock<Option<Arc<dyn Observer>>> = ss::RwLock::new(None);
+static NEXT_ID: AtomicUsize = AtomicUsize::new(1);
+
+pub fn set_observer(o: Option<Arc<dyn Observer>>) {
+    *OBSERVER.write().unwrap_or_else(|e| e.into_inner()) = o;
+}
+
+fn observer() -> Option<Arc<dyn Observer>> {
+    OBSERVER.read().unwrap_or_else(|e| e.into_inner()).clone()
+}
+
+fn next_id() -> usize {
+    NEXT_ID.fetch_add(1, StdOrdering::SeqCst)
+}
+
+fn emit(op: Op, label: &'static str, obj: usize, before: bool, arg: usize) {
+    if let Some(o) = observer() {
+        o.event(&Event {
+            op,
+            label,
+            obj,
+            before,
+            arg,
+        });
+    }
+}
+
+/// A point of interest inside the library (ticker tick, `BarState::drop`, ...).
+pub fn mark(label: &'static str, arg: usize) {
+    emit(Op::Mark, label, 0, false, arg);
+}
+
+// ---------------------------------------------------------------------------------------------
+
+pub struct Mutex<T> {
+    inner: ss::Mutex<T>,
+    id: usize,
+}
+
+impl<T> Mutex<T> {
+    pub fn new(v: T) -> Self {
+        Self {
+            inner: ss::Mutex::new(v),
+            id: next_id(),
+        }
+    }
+
+    pub fn lock(&self) -> LockResult<MutexGuard<'_, T>> {
+        let label = std::any::type_name::<T>();
+        emit(Op::Lock, label, self.id, true, 0);
+        let r = self.inner.lock();
+        emit(Op::Lock, label, self.id, false, 0);
+        match r {
+            Ok(g) => Ok(MutexGuard {
+                g: Some(g),
+                m: self,
+            }),
+            Err(p) => Err(PoisonError::new(MutexGuard {
+                g: Some(p.into_inner()),
+                m: self,
+            })),
+        }
+    }
+}
+
+pub struct MutexGuard<'a, T> {
+    g: Option<ss::MutexGuard<'a, T>>,
+    m: &'a Mutex<T>,
+}
+
+impl<T> Deref for MutexGuard<'_, T> {
+    type Target = T;
+    fn deref(&self) -> &T {
+        self.g.as_ref().unwrap()
+    }
+}
+
+impl<T> DerefMut for MutexGuard<'_, T> {
+    fn deref_mut(&mut self) -> &mut T {
+        self.g.as_mut().unwrap()
+    }
+}
+
+impl<T> Drop for MutexGuard<'_, T> {
+    fn drop(&mut self) {
+        if let Some(g) = self.g.take() {
+            drop(g);
+            emit(Op::Unlock, std::any::type_name::<T>(), self.m.id, false, 0);
+        }
+    }
+}
+
+// ---------------------------------------------------------------------------------------------
+
+pub struct RwLock<T> {
+    inner: ss::RwLock<T>,
+    id: usize,
+}
+
+impl<T> RwLock<T> {
+    pub fn new(v: T) -> Self {
+        Self {
+            inner: ss::RwLock::new(v),
+            id: next_id(),
+        }
+    }
+
+    pub fn read(&self) -> LockResult<RwLockReadGuard<'_, T>> {
+        let label = std::any::type_name::<T>();
+        emit(Op::Read, label, self.id, true, 0);
+        let r = self.inner.read();
+        emit(Op::Read, label, self.id, false, 0);
+        match r {
+            Ok(g) => Ok(RwLockReadGuard {
+                g: Some(g),
+                id: self.id,
+            }),
+            Err(p) => Err(PoisonError::new(RwLockReadGuard {
+                g: Some(p.into_inner()),
+                id: self.id,
+            })),
+        }
+    }
+
+    pub fn write(&self) -> LockResult<RwLockWriteGuard<'_, T>> {
+        let label = std::any::type_name::<T>();
+        emit(Op::Write, label, self.id, true, 0);
+        let r = self.inner.write();
+        emit(Op::Write, label, self.id, false, 0);
+        match r {
+            Ok(g) => Ok(RwLockWriteGuard {
+                g: Some(g),
+                id: self.id,
+            }),
+            Err(p) => Err(PoisonError::new(RwLockWriteGuard {
+                g: Some(p.into_inner()),
+                id: self.id,
+            })),
+        }
+    }
+}
+
+impl<T: std::fmt::Debug> std::fmt::Debug for RwLock<T> {
+    fn fmt(&self, f: &mut std::fmt::Formatter<'_>) -> std::fmt::Result {
+        self.inner.fmt(f)
+    }
+}
+
+pub struct RwLockReadGuard<'a, T> {
+    g: Option<ss::RwLockReadGuard<'a, T>>,
+    id: usize,
+}
+
+impl<T> Deref for RwLockReadGuard<'_, T> {
+    type Target = T;
+    fn deref(&self) -> &T {
+        self.g.as_ref().unwrap()
+    }
+}
+
+impl<T> Drop for RwLockReadGuard<'_, T> {
+    fn drop(&mut self) {
+        if let Some(g) = self.g.take() {
+            drop(g);
+            emit(Op::RwUnlock, std::any::type_name::<T>(), self.id, false, 0);
+        }
+    }
+}
+
+pub struct RwLockWriteGuard<'a, T> {
+    g: Option<ss::RwLockWriteGuard<'a, T>>,
+    id: usize,
+}
+
+impl<T> Deref for RwLockWriteGuard<'_, T> {
+    type Target = T;
+    fn deref(&self) -> &T {
+        self.g.as_ref().unwrap()
+    }
+}
+
+impl<T> DerefMut for RwLockWriteGuard<'_, T> {
+    fn deref_mut(&mut self) -> &mut T {
+        self.g.as_mut().unwrap()
+    }
+}
+
+impl<T> Drop for RwLockWriteGuard<'_, T> {
+    fn drop(&mut self) {
+        if let Some(g) = self.g.take() {
+            drop(g);
+            emit(Op::RwUnlock, std::any::type_name::<T>(), self.id, false, 1);
+        }
+    }
+}
+
+// ---------------------------------------------------------------------------------------------
+
+pub struct Condvar {
+    inner: ss::Condvar,
+    id: usize,
+}
+
+pub struct WaitTimeoutResult(bool);
+
+impl WaitTimeoutResult {
+    pub fn timed_out(&self) -> bool {
+        self.0
+    }
+}
+
+impl Condvar {
+    pub fn new() -> Self {
+        Self {
+            inner: ss::Condvar::new(),
+            id: next_id(),
+        }
+    }
+
+    pub fn notify_one(&self) {
+        emit(Op::CvNotify, "condvar", self.id, true, 0);
+        self.inner.notify_one();
+    }
+
+    pub fn wait_timeout_while<'a, T, F>(
+        &self,
+        mut guard: MutexGuard<'a, T>,
+        dur: Duration,
+        mut condition: F,
+    ) -> LockResult<(MutexGuard<'a, T>, WaitTimeoutResult)>
+    where
+        F: FnMut(&mut T) -> bool,
+    {
+        let label = std::any::type_name::<T>();
+        let m = guard.m;
+        let controlled = observer().and_then(|o| {
+            // probe without blocking: an observer that controls waits answers in `cv_wait` below
+            if o.cv_wait(0).is_some() {
+                Some(o)
+            } else {
+                None
+            }
+        });
+        if let Some(o) = controlled {
+            loop {
+                if !condition(&mut *guard) {
+                    return Ok((guard, WaitTimeoutResult(false)));
+                }
+                drop(guard); // releases the mutex (Unlock event)
+                emit(Op::CvWait, label, self.id, true, m.id);
+                let timed_out = o.cv_wait(self.id).unwrap_or(true);
+                emit(Op::CvWait, label, self.id, false, timed_out as usize);
+                guard = match m.lock() {
+                    Ok(g) => g,
+                    Err(p) => p.into_inner(),
+                };
+                if timed_out {
+                    let still = condition(&mut *guard);
+                    return Ok((guard, WaitTimeoutResult(still)));
+                }
+            }
+        }
+        // recording mode: the real condition variable does the waiting
+        let inner = guard.g.take().unwrap();
+        emit(Op::Unlock, label, m.id, false, 0);
+        emit(Op::CvWait, label, self.id, true, m.id);
+        let r = self.inner.wait_timeout_while(inner, dur, condition);
+        let (g, res, poisoned) = match r {
+            Ok((g, res)) => (g, res.timed_out(), false),
+            Err(p) => {
+                let (g, res) = p.into_inner();
+                (g, res.timed_out(), true)
+            }
+        };
+        emit(Op::CvWait, label, self.id, false, res as usize);
+        emit(Op::Lock, label, m.id, false, 0);
+        let out = (MutexGuard { g: Some(g), m }, WaitTimeoutResult(res));
+        if poisoned {
+            Err(PoisonError::new(out))
+        } else {
+            Ok(out)
+        }
+    }
+}
+
+// ---------------------------------------------------------------------------------------------
+
+pub mod thread {
+    use super::{emit, next_id, Op};
+    pub use std::thread::{panicking, sleep};
+
+    pub struct JoinHandle<T> {
+        inner: std::thread::JoinHandle<T>,
+        id: usize,
+    }
+
+    struct ExitMark(usize);
+    impl Drop for ExitMark {
+        fn drop(&mut self) {
+            emit(Op::Exit, "thread", self.0, false, 0);
+        }
+    }
+
+    pub fn spawn<F, T>(f: F) -> JoinHandle<T>
+    where
+        F: FnOnce() -> T + Send + 'static,
+        T: Send + 'static,
+    {
+        let id = next_id();
+        emit(Op::Spawn, "thread", id, true, 0);
+        let inner = std::thread::spawn(move || {
+            emit(Op::Start, "thread", id, true, 0);
+            let _exit = ExitMark(id);
+            f()
+        });
+        JoinHandle { inner, id }
+    }
+
+    impl<T> JoinHandle<T> {
+        pub fn join(self) -> std::thread::Result<T> {
+            emit(Op::Join, "thread", self.id, true, 0);
+            let r = self.inner.join();
+            emit(Op::Join, "thread", self.id, false, 0);
+            r
+        }
+    }
+}
+
+// ---------------------------------------------------------------------------------------------
+
+pub struct AtomicU64 {
+    inner: portable_atomic::AtomicU64,
+    id: usize,
+}
+
+impl AtomicU64 {
+    pub fn new(v: u64) -> Self {
+        Self {
+            inner: portable_atomic::AtomicU64::new(v),
+            id: next_id(),
+        }
+    }
+
+    pub fn load(&self, o: portable_atomic::Ordering) -> u64 {
+        emit(Op::AtomicLoad, "u64", self.id, true, 0);
+        self.inner.load(o)
+    }
+
+    pub fn store(&self, v: u64, o: portable_atomic::Ordering) {
+        emit(Op::AtomicStore, "u64", self.id, true, 0);
+        self.inner.store(v, o)
+    }
+
+    pub fn fetch_add(&self, v: u64, o: portable_atomic::Ordering) -> u64 {
+        emit(Op::AtomicRmw, "u64", self.id, true, 0);
+        self.inner.fetch_add(v, o)
+    }
+
+    pub fn fetch_sub(&self, v: u64, o: portable_atomic::Ordering) -> u64 {
+        emit(Op::AtomicRmw, "u64", self.id, true, 1);
+        self.inner.fetch_sub(v, o)
+    }
+
+    pub fn get_mut(&mut self) -> &mut u64 {
+        self.inner.get_mut()
+    }
+}
